@@ -154,6 +154,9 @@ ARG_POOL = [
     'xs:integer(5)', 'xs:unsignedByte(255)', 'xs:long("-9223372036854775808")', 'xs:NCName("a")', 'xs:language("en-US")',
     'abs#1', 'concat#3', 'function($x) { $x }', 'function($a, $b) { $a }', 'function() { 1 }', 'true#0', 'position#0',
     'function($x) { error() }', 'function($x as xs:integer) as xs:string { $x }', 'map:get(?, 1)', 'math:pow(?, 2)',
+    # encoding declarations that the XML parsers refuse
+    "'<?xml version=\"1.0\" encoding=\"bogus\"?><r/>'", "'<?xml\tversion=\"1.0\" encoding=\"utf-8\"?><r/>'",
+    "'<?xml version=\"1.0\" encoding=\"utf-16\"?><r/>'", "'<?xml version=\"1.0\" encoding=\"rot13\"?><r/>'",
     # presentation modifiers on components that are not numbers, arguments inside (-1, 0) for the logarithms
     "'[PI]'", "'[Pw]'", "'[ZI]'", "'[Zw]'", "'[EI] [Ea]'", "'[PWw] [za]'", "'[FI] [Fi]'", "'[EWw]'", '-0.5', '-0.999', '-1e-300',
     # implementation limits and unusual but legal values (pristine notes of round 4)
@@ -520,7 +523,8 @@ def gen_case(rng, tier):
                 ops.append({'op': 'eval', 'p': 0, 'src': src, 'kind': 'valid', 'lazy': rng.random() < 0.3,
                             'vars': rng.random() < 0.5, 'probes': probes})
         return {'config': {'parsers': [{'v': '3.1', 'strict': True, 'ns': True}], 'installed': installed, 'files': files,
-                           'reclimit': None, 'shared_ctx': False, 'profile': 'grid:' + fam}, 'ops': ops}
+                           'reclimit': None, 'shared_ctx': False, 'profile': 'grid:' + fam,
+                           'backend': rng.choice(['et', 'et', 'lxml'])}, 'ops': ops}
     shared_ctx = rng.random() < 0.25
     hot = rng.sample(sorted(files), min(len(files), rng.choice([1, 1, 2])))     # resources asked for again and again
     for _ in range(nops):
@@ -560,7 +564,7 @@ def gen_case(rng, tier):
                         'locale_fault': sorted(set(rng.randint(1, 4) for _ in range(rng.choice([0, 1, 2])))),
                         'probes': probes})
     return {'config': {'parsers': parsers, 'installed': installed, 'files': files, 'reclimit': reclimit,
-                       'shared_ctx': shared_ctx}, 'ops': ops}
+                       'shared_ctx': shared_ctx, 'backend': rng.choice(['et', 'et', 'lxml'])}, 'ops': ops}
 
 
 def simplify(case):
@@ -675,6 +679,9 @@ def run_case(case, world):
              'crash_points_armed': 0, 'io_ops': 0, 'steps': 0}
     shape = []
     root = ET.fromstring(DOC)
+    if cfg.get('backend') == 'lxml':
+        import lxml.etree as LET
+        root = LET.fromstring(DOC)      # fn:parse-xml, fn:serialize... then work with libxml2
 
     # pristine references for the probe set (this process has parsed nothing yet)
     pristine = {}
